@@ -104,7 +104,7 @@ SerValue(x, T) ==
         IF "u" \in DOMAIN x THEN Elem(x.u, <<>>, <<>>)
         ELSE LET S == {i \in 1..Len(T.variants) : T.variants[i].name = x.v}
                  var == T.variants[CHOOSE i \in S : TRUE] IN
-             IF var.kind = "text" THEN TextEv(PrimText(x.x, var.ty))
+             IF var.kind \in {"text", "ttext"} THEN TextEv(PrimText(x.x, var.ty))       \* ($text newtype variant / $text tuple variant)
              ELSE SerElem(x.v, x.x, var.ty)
     ELSE IF T.t = "unit" THEN Elem(x.u, <<>>, <<>>)
     ELSE TextEv(PrimText(x, T))
